@@ -11,6 +11,7 @@ from vf.core.rec import exc_sig, exc_text
 from vf.ref import t2_layout as L
 from vf.sim import t2t as S
 from vf.sim.tagdevice import SimTagDevice, activate
+from vf.tags import tlv_end as TE
 
 FAM = "t2t"
 COMMAND_BOUND = 20000
@@ -647,10 +648,19 @@ RULE_C08 = ("cases = (memory image, discovery data, GET_VERSION answer, response
             "sens_res / sel_res / UID length variants; 'tag stops answering after command j' for every j of the "
             "reference run; adversarial well-framed responses (random length and content, ACK/NAK bytes, silence) at "
             "random or all positions; outcome oracles: no exception, command bound, len(octets)==length<=capacity<="
-            "data area, octets independent of all physical bytes behind the declared data area (differential run)")
+            "data area, octets independent of all physical bytes behind the declared data area (differential run); plus "
+            "the enumerated class 'NDEF TLV near the end of the data area' (vf/tags/tlv_end.py): 1-byte length form "
+            "L=0..254 and 3-byte form L=0..300 (incl. the non-canonical values < 255) x value ending -3..+4 usable bytes "
+            "from the end of the declared data area (every offset) x reserved ranges none/before/inside/tail/before+inside/"
+            "straddle x geometries CC2 6..127 (one across the sector boundary) with 32..68 readable bytes of physical "
+            "memory behind the data area that hold a distinct pattern, same oracles")
 REQUIRED_C08 = ["t2t_c08_outcome_ndef", "t2t_c08_outcome_tag_without_ndef", "t2t_c08_outcome_none",
                 "t2t_c08_noninterference_checked", "t2t_c08_stop_points", "t2t_c08_adversarial_responses",
-                "t2t_c08_version_variants"]
+                "t2t_c08_version_variants",
+                "t2t_c08_tlv_end_cases", "t2t_c08_tlv_end_form3_len_below_255", "t2t_c08_tlv_end_memory_behind",
+                "t2t_c08_tlv_end_rsv_before", "t2t_c08_tlv_end_rsv_inside", "t2t_c08_tlv_end_fit_returned_value",
+                "t2t_c08_tlv_end_overrun_returned_tag_without_ndef"] + [
+    "t2t_c08_tlv_end_form%d_off_%s" % (_f, TE.off_name(_d)) for _f in (1, 3) for _d in TE.OFFSETS]
 
 C08_BOUND = 3000        # largest fault-free evaluation of the biggest image (2 KB, read twice) stays below 400
 C08_MAX_BOUND_HITS = 12  # a shard stops generating after this many command-bound violations (verdict is fixed)
@@ -659,9 +669,11 @@ C08_MAX_BOUND_HITS = 12  # a shard stops generating after this many command-boun
 def plan_c08(tier):
     if tier == "quick":
         return [{"mode": "images", "n": 7000}, {"mode": "mutated", "n": 6000}, {"mode": "stop", "n": 260},
-                {"mode": "adversarial", "n": 8000}]
-    return [{"mode": "images", "n": 60000, "timeout": 3000}, {"mode": "mutated", "n": 60000, "timeout": 3000},
-            {"mode": "stop", "n": 2600, "timeout": 3000}, {"mode": "adversarial", "n": 70000, "timeout": 3000}]
+                {"mode": "adversarial", "n": 8000}, {"mode": "tlv-end", "form": 1, "timeout": 300},
+                {"mode": "tlv-end", "form": 3, "timeout": 300}]
+    return ([{"mode": "images", "n": 60000, "timeout": 3000}, {"mode": "mutated", "n": 60000, "timeout": 3000},
+             {"mode": "stop", "n": 2600, "timeout": 3000}, {"mode": "adversarial", "n": 70000, "timeout": 3000}]
+            + [{"mode": "tlv-end", "form": form, "part": part, "parts": 2, "timeout": 3000} for form in (1, 3) for part in (0, 1)])
 
 
 def _rand_tlv_stream(rng, n):
@@ -744,8 +756,77 @@ def _c08_discovery(rng, case):
         case["sel_res"] = rng.choice([b"\x00", b"\x04", b"\x08", b"\x18", b"\x10"])
 
 
+# geometries of the tlv-end class: (UID0, physical bytes, CC2); data area = bytes 16 .. 16 + 8*CC2 - 1
+TLV_END_GEO = [(0x02, 96, 6), (0x02, 192, 18), (0x04, 400, 40), (0x02, 560, 62), (0x02, 1100, 127), (0x02, 64, 6)]
+
+
+def c08_tlv_end_image(rng, geo, form, ln, d, variant):
+    """-> (case, description) or None when the combination cannot be laid out in this geometry"""
+    uid0, phys, cc2 = geo
+    mem = bytearray(phys)
+    mem[0:10] = rnd_bytes(rng, 10)
+    mem[0] = uid0
+    mem[3] = 0x88 ^ mem[0] ^ mem[1] ^ mem[2]
+    mem[8] = mem[4] ^ mem[5] ^ mem[6] ^ mem[7]
+    mem[12:16] = bytes([0xE1, 0x10, cc2, 0x00])
+    td = TE.build(rng, mem, 16, 16 + 8 * cc2, d, form, ln, variant, min_exp=2)
+    if td is None:
+        return None
+    case = {"family": FAM, "kind": "generic", "mem": bytes(mem), "cls": "tlv-end",
+            "tlv_end": {k: v for k, v in td.items() if k != "value"}}
+    return case, td
+
+
+def _run_c08_tlv_end(desc, R, rng):
+    form = desc["form"]
+    specs = TE.enumerate_specs(rng, form, desc["tier"], len(TLV_END_GEO))
+    if desc.get("parts"):
+        specs = specs[desc["part"]::desc["parts"]]
+    case = None
+    for ln, d, cand, full in specs:
+        if R.counters.get("t2t_c08_bound_hits", 0) >= C08_MAX_BOUND_HITS:
+            break
+        built = 0
+        for variant, g in cand:
+            x = c08_tlv_end_image(rng, TLV_END_GEO[g], form, ln, d, variant)
+            if x is None:
+                R.count("t2t_c08_tlv_end_not_laid_out")
+                continue
+            case, td = x
+            built += 1
+            info = {}
+            c08_case(case, R, info)
+            out = str(info.get("outcome")).replace("-", "_")
+            R.count("t2t_c08_tlv_end_cases")
+            R.count("t2t_c08_tlv_end_form%d_off_%s" % (form, TE.off_name(d)))
+            R.count("t2t_c08_tlv_end_geo_%d_of_%d" % (td["data_end"], td["phys"]))
+            if form == 3 and ln < 255:
+                R.count("t2t_c08_tlv_end_form3_len_below_255")
+            if td["behind"]:
+                R.count("t2t_c08_tlv_end_memory_behind")
+            for c in td["realised"] or ["none"]:
+                R.count("t2t_c08_tlv_end_rsv_" + c)
+            R.max("t2t_c08_tlv_end_max_len", ln)
+            # what the reader made of it (observations, not verdicts: the verdicts are c08_case's)
+            if td["fits"]:
+                if out == "ndef" and info.get("octets") == td["value"]:
+                    R.count("t2t_c08_tlv_end_fit_returned_value")
+                else:
+                    R.count("t2t_c08_tlv_end_fit_returned_" + ("other_octets" if out == "ndef" else out))
+            else:
+                R.count("t2t_c08_tlv_end_overrun_returned_" + out)
+            if not full:
+                break
+        if not built:
+            R.count("t2t_c08_tlv_end_length_offset_without_image")
+    if case is not None:
+        R.sample({"t2t_c08_tlv_end_last_case": case["tlv_end"]})
+
+
 def run_c08(desc, R, rng):
     mode = desc["mode"]
+    if mode == "tlv-end":
+        return _run_c08_tlv_end(desc, R, rng)
     n = desc["n"]
     if mode == "stop":
         return _run_c08_stop(desc, R, rng)
@@ -1005,12 +1086,15 @@ def _c08_eval(case, mem, R, wit, adversary=None):
     return out
 
 
-def c08_case(case, R):
+def c08_case(case, R, info=None):
     """returns the number of commands of the run (for the stop-after-j enumeration)"""
     mem = bytes(case["mem"])
     wit = dict(case)
     adversary = _Adversary(case["adversary"]) if case.get("adversary") and case.get("injected") is None else None
     out = _c08_eval(case, mem, R, wit, adversary)
+    if info is not None:
+        info["outcome"] = out["outcome"]
+        info["octets"] = None if out["octets"] is None else bytes(out["octets"])
     if adversary is not None:
         R.count("t2t_c08_adversarial_responses", len(adversary.injected))
     if case.get("injected"):
